@@ -623,22 +623,23 @@ impl State {
                 format!("{} {}", kind, hx(&sink.accepted))
             }
             ["TRC", t] => {
-                let t = s!(t);
-                match StackTrace::try_parse(t.as_bytes()) {
+                // raw bytes: `try_parse` does its own UTF-8 validation
+                let Some(t) = unhex(t) else { return bad() };
+                match StackTrace::try_parse(&t) {
                     None => "-".into(),
                     Some(tr) => cur::r_trace_p(&tr),
                 }
             }
             ["FRM", l] => {
-                let l = s!(l);
-                match StackFrame::try_parse(l.as_bytes()) {
+                let Some(l) = unhex(l) else { return bad() };
+                match StackFrame::try_parse(&l) {
                     None => "-".into(),
                     Some(f) => format!("{}/{}", cur::r_frame(&f), hxs(&f.to_string())),
                 }
             }
             ["THW", l] => {
-                let l = s!(l);
-                match Throwable::try_parse(l.as_bytes()) {
+                let Some(l) = unhex(l) else { return bad() };
+                match Throwable::try_parse(&l) {
                     None => "-".into(),
                     Some(t) => format!("{}/{}", cur::r_throwable(&t), hxs(&t.to_string())),
                 }
